@@ -796,6 +796,10 @@ inline void init(int argc, char** argv, const char* property, const char* harnes
   r.property = property;
   r.harness = harness;
   setvbuf(stdout, nullptr, _IOLBF, 0);
+  // first initialisation of the monitor's own statics happens here, single-threaded
+  (void)thread_states(); (void)my_state(); (void)point_table(); (void)registry(); (void)policy();
+  (void)progress_counter(); (void)threads_expected(); (void)threads_started(); (void)watchdog();
+  (void)intern("");
   install_hook();
 }
 
